@@ -127,3 +127,205 @@ theorem start_passes_iff (l : Lock) (fars : Nat) :
   omega
 
 end Noir.StateLock
+
+namespace Noir.LoopProto
+
+variable {Host Head Body End : Type} [DecidableEq Host] [DecidableEq Head] [DecidableEq Body] [DecidableEq End]
+
+/-! ## The protocol of one loop (any number of hosts and replicas, every interleaving, arbitrary delays)
+
+`Reachable L s`: `s` is reachable from the initial state by the transitions of Model/LoopProto.lean.
+The loop has at least one head replica `r0`, one body replica `b0` (a block behind a `Start` that
+holds the loop's lock) and one `IterationEnd` replica `e0`. -/
+
+/-- **I1.** The leader has completed round `K` only after every body replica emitted the
+    `FlushAndRestart` of round `K` (it has finished evaluating the body for that round). -/
+theorem loopProto_I1 (L : Layout Host Head Body End) (r0 : Head) (b0 : Body) (e0 : End)
+    {s : St Host Head Body End} (h : Reachable L s) : ∀ b, s.K ≤ s.fars b := by
+  intro b
+  have inv := inv_reachable L r0 b0 h
+  have := inv.K_le_got e0
+  have := inv.got_le_sent e0
+  have := inv.sent_le_fars e0 b
+  omega
+
+/-- **I2.** On every host the state cell holds the state of broadcast number `sidx h` with
+    `syncs h ≤ sidx h ≤ syncs h + 1` (`syncs h` = completed lock/unlock cycles, generation =
+    `2·syncs h` or `2·syncs h + 1`); it is ahead of `syncs h` only between the local leader's write and
+    its `unlock`; and it never holds a state the leader has not broadcast yet (`sidx h ≤ K`). -/
+theorem loopProto_I2 (L : Layout Host Head Body End) (r0 : Head) (b0 : Body)
+    {s : St Host Head Body End} (h : Reachable L s) :
+    ∀ host, s.sidx host ≤ s.K ∧ s.syncs host ≤ s.sidx host ∧ s.sidx host ≤ s.syncs host + 1 ∧
+      (s.sidx host = s.syncs host + 1 →
+        s.phase (L.leaderOf host) = .atBarrier ∨ s.phase (L.leaderOf host) = .released) := by
+  intro host
+  have inv := inv_reachable L r0 b0 h
+  have h1 := inv.sidx_fb host
+  have h2 := inv.fb_le_K (L.leaderOf host)
+  have ha := inv.syncs_a host
+  have hb := inv.syncs_b host
+  cases hp : s.phase (L.leaderOf host) with
+  | emitting => have := ha (Or.inl hp); refine ⟨by omega, by omega, by omega, fun _ => by omega⟩
+  | waiting => have := ha (Or.inr hp); refine ⟨by omega, by omega, by omega, fun _ => by omega⟩
+  | atBarrier => have := hb (Or.inl hp); exact ⟨by omega, by omega, by omega, fun _ => Or.inl rfl⟩
+  | released => have := hb (Or.inr hp); exact ⟨by omega, by omega, by omega, fun _ => Or.inr rfl⟩
+
+/-- **I3 = C10 `state_read_is_previous_round`.** In every reachable state, a body replica `b` that
+    has let the first element after its `fars b`-th `FlushAndRestart` pass — i.e. that is processing
+    data of round `k = fars b + 1` — finds in its host's state cell exactly the state of broadcast
+    number `k - 1 = fars b` (the initial state for `k = 1`): never an older, never a newer one. By
+    `leader_round` that broadcast carries `S_{k-1}`. -/
+theorem state_read_is_previous_round (L : Layout Host Head Body End) (r0 : Head) (b0 : Body) (e0 : End)
+    {s : St Host Head Body End} (h : Reachable L s) (b : Body) (hp : s.passed b = true) :
+    s.sidx (L.hostOfBody b) = s.fars b := by
+  have inv := inv_reachable L r0 b0 h
+  have h1 := inv.passed_sync b hp
+  have h2 := (loopProto_I2 L r0 b0 h (L.hostOfBody b))
+  have h3 := loopProto_I1 L r0 b0 e0 h b
+  omega
+
+/-- the state cell is never written while some body replica of that host is inside a round: a write
+    of broadcast `j` on host `h` needs `K ≥ j`, hence every body replica has already emitted the
+    `FlushAndRestart` of round `j` (no data race between `set` and `get`, iteration/mod.rs:60-80) -/
+theorem no_write_during_round (L : Layout Host Head Body End) (r0 : Head) (b0 : Body) (e0 : End)
+    {s : St Host Head Body End} (h : Reachable L s) (r : Head) (hw : s.phase r = .waiting) (hk : s.fb r < s.K)
+    (b : Body) : s.fb r + 1 ≤ s.fars b := by
+  have := loopProto_I1 L r0 b0 e0 h b
+  omega
+
+/-- non-vacuity: a reachable state with a body replica inside a round -/
+example : ∃ s : St Unit Unit Unit Unit,
+    Reachable ⟨id, id, id, fun _ => rfl, [()], by simp, by simp⟩ s ∧ s.passed () = true :=
+  ⟨_, .step .init (.bodyPass init () rfl (Nat.le_refl _)), by simp [upd]⟩
+
+/-! ## Nested loops (F9) -/
+
+/-- **F9 `nested_outer_state_stale_counterexample`.** Full-strength statement that FAILS: "a replica
+    of the inner body processing data of outer round k reads the outer state S_{k-1}". In the two-level
+    instance (2 hosts, inner body behind a shuffle, its `Start` waits only for the INNER lock —
+    `iteration_ctx.last()`, stream.rs:160) the schedule `f9Schedule` is executable and ends with host
+    1's inner-body replica reading host 1's OUTER state cell (still broadcast 0) while processing host
+    0's data of outer round 1. Confirmed on the real engine by the `loops` harness (nested n1, 2 hosts). -/
+theorem nested_outer_state_stale_counterexample :
+    (Nested.exec 1 false (Nested.ninit 2) Nested.f9Schedule).map Nested.anyStale = some true := by
+  decide
+
+/-- Candidate fix (the body `Start` waits for the lock of EVERY enclosing loop): full statement
+    "`∀ schedule s, exec I true (ninit H) schedule = some s → anyStale s = false`" is NOT proved; only
+    that the fixed guard rejects the witness schedule at its last step. -/
+theorem nested_fix_no_stale_partial :
+    Nested.exec 1 true (Nested.ninit 2) Nested.f9Schedule = none ∧
+    (Nested.exec 1 true (Nested.ninit 2) (Nested.f9Schedule.take 11)).map Nested.anyStale = some false := by
+  decide
+
+end Noir.LoopProto
+
+namespace Noir.IterEnd
+
+/-- **C10 `iterationEnd_one_delta_per_round`.** The local fold in front of `IterationEnd` yields at
+    most one element per round; `IterationEnd` sends exactly one delta per `FlushAndRestart`: that
+    element, or `Default::default()` when no element arrived (iteration_end.rs:93-106), and is ready
+    for the next round. -/
+theorem iterationEnd_one_delta_per_round {δ : Type} (delta0 : δ) (ds : List δ) (hl : ds.length ≤ 1) :
+    run delta0 false (ds.map Elem.item ++ [.far]) = (false, [.item (ds.headD delta0)]) := by
+  match ds, hl with
+  | [], _ => simp [run, step]
+  | [d], _ => simp [run, step]
+
+end Noir.IterEnd
+
+namespace Noir.SeqLoop
+open Noir.Leader
+
+variable {σ δ α : Type}
+
+/-! ## The single loop computes the sequential semantics -/
+
+/-- one round of the closed loop, in terms of the loop's own functions -/
+theorem closed_round (l : Loop σ δ α) (n : Nat) (hn : 1 ≤ n)
+    (split : List α → List (List α)) (hsplit : ∀ xs, (split xs).length = n)
+    (st : Leader.St σ) (inp : List α) (hd : st.done = false) (hm : st.missing = n) :
+    let T := foldRound l st.state (split (l.body st.state inp))
+    runDeltas (cfgOf l n) st (deltas l (split (l.body st.state inp))) =
+      if ((l.cond T).1 && decide (st.idx + 1 < l.maxIter)) = true then
+        ({ st with state := (l.cond T).2, idx := st.idx + 1, missing := n }, [.feedback true (l.cond T).2])
+      else ({ st with state := l.init, idx := 0, missing := n },
+            [.feedback false l.init, .elem (.item (l.cond T).2), .elem .far]) := by
+  have hlen : (deltas l (split (l.body st.state inp))).length = (cfgOf l n).n := by
+    simp [deltas, hsplit, cfgOf]
+  exact leader_round (cfgOf l n) st (deltas l (split (l.body st.state inp))) hn hd hm hlen
+
+theorem closedLoop_rounds (l : Loop σ δ α) (n : Nat) (hn : 1 ≤ n) (feed : Bool)
+    (split : List α → List (List α)) (hsplit : ∀ xs, (split xs).length = n) :
+    ∀ (rem fuel : Nat) (st : Leader.St σ) (inp : List α),
+      st.done = false → st.missing = n → rem = l.maxIter - 1 - st.idx → rem < fuel →
+      closedLoop l n feed split fuel st st.state inp =
+        expectOuts l.init (rounds l feed split rem st.state inp) := by
+  intro rem
+  induction rem with
+  | zero =>
+    intro fuel st inp hd hm hrem hf
+    obtain ⟨fuel', rfl⟩ : ∃ f, fuel = f + 1 := ⟨fuel - 1, by omega⟩
+    have hr := closed_round l n hn split hsplit st inp hd hm
+    simp only at hr
+    have hnc : decide (st.idx + 1 < l.maxIter) = false := decide_eq_false (by omega)
+    rw [hnc, Bool.and_false] at hr
+    simp only [Bool.false_eq_true, if_false] at hr
+    simp only [closedLoop, hr, rounds, expectOuts]
+  | succ rem ih =>
+    intro fuel st inp hd hm hrem hf
+    obtain ⟨fuel', rfl⟩ : ∃ f, fuel = f + 1 := ⟨fuel - 1, by omega⟩
+    have hr := closed_round l n hn split hsplit st inp hd hm
+    simp only at hr
+    have hnc : decide (st.idx + 1 < l.maxIter) = true := decide_eq_true (by omega)
+    rw [hnc, Bool.and_true] at hr
+    cases hc : (l.cond (foldRound l st.state (split (l.body st.state inp)))).1 with
+    | false =>
+      rw [hc] at hr
+      simp only [Bool.false_eq_true, if_false] at hr
+      simp only [closedLoop, hr, rounds, hc, expectOuts, Bool.false_eq_true, if_false]
+    | true =>
+      rw [hc] at hr
+      simp only [if_true] at hr
+      have := ih fuel' { st with state := (l.cond (foldRound l st.state (split (l.body st.state inp)))).2, idx := st.idx + 1, missing := n }
+        (if feed then l.body st.state inp else inp) hd rfl (by simp only; omega) (by omega)
+      simp only at this
+      simp only [closedLoop, hr, rounds, hc, if_true, this]
+      cases hrs : rounds l feed split rem (l.cond (foldRound l st.state (split (l.body st.state inp)))).2
+          (if feed then l.body st.state inp else inp) with
+      | nil => exact absurd hrs (rounds_ne_nil l feed split rem _ _)
+      | cons p ps => simp [expectOuts]
+
+
+/-- **C10 `loop_seq`.** With every replica evaluating the body of a round against the last broadcast
+    state (`state_read_is_previous_round`) and one delta per end replica and round
+    (`iterationEnd_one_delta_per_round`), the leader's actions over the whole loop are exactly those of
+    the sequential semantics: `(true, S_k)` after every round but the last, where `S_k` are the states
+    of `SeqLoop.trace`; the loop stops exactly when the condition returns false or the bound is
+    reached; then `(false, init)`, `Item(S_final)`, `FlushAndRestart`. Holds for `replay`
+    (`feed = false`) and `iterate` (`feed = true`, round k+1 is fed round k's output). -/
+theorem loop_seq (l : Loop σ δ α) (n : Nat) (hn : 1 ≤ n) (feed : Bool)
+    (split : List α → List (List α)) (hsplit : ∀ xs, (split xs).length = n) (input : List α) :
+    closedLoop l n feed split (l.maxIter + 1) (Leader.init (cfgOf l n)) l.init input =
+      expectOuts l.init (trace l feed split input) := by
+  have := closedLoop_rounds l n hn feed split hsplit (l.maxIter - 1) (l.maxIter + 1)
+    (Leader.init (cfgOf l n)) input rfl rfl (by simp [Leader.init]) (by omega)
+  exact this
+
+/-- the stream of the loop's result: exactly `Item(seqReplay …)` (resp. the state component of
+    `seqIterate`) followed by `FlushAndRestart` -/
+theorem loop_seq_result (l : Loop σ δ α) (n : Nat) (hn : 1 ≤ n) (feed : Bool)
+    (split : List α → List (List α)) (hsplit : ∀ xs, (split xs).length = n) (input : List α) :
+    returned (closedLoop l n feed split (l.maxIter + 1) (Leader.init (cfgOf l n)) l.init input) =
+      [.item (lastD (trace l feed split input) (l.init, [])).1, .far] := by
+  rw [loop_seq l n hn feed split hsplit input]
+  exact expectOuts_returned l.init (l.init, []) _ (rounds_ne_nil l feed split _ _ _)
+
+/-- non-vacuity: replay of `[1,2,3]` with body `x ↦ x + S`, sum folds, bound 3, condition true, 2 end
+    replicas: states 0 → 6 → 30 → 126 -/
+example :
+    seqReplay (σ := Nat) (δ := Nat) (α := Nat)
+      ⟨0, 3, fun S xs => xs.map (· + S), 0, (· + ·), (· + ·), fun s => (true, s)⟩
+      (fun xs => [xs.take 1, xs.drop 1]) [1, 2, 3] = 126 := by decide
+
+end Noir.SeqLoop
